@@ -42,7 +42,8 @@ Inductive ierr :=
 | EOther
 | EPanic
 | EOutOfFuel
-| EClosed.
+| EClosed
+| EEOF             (* io.EOF at a record boundary: clean end of file *).
 
 (* observable error classes (what errors.Is distinguishes) *)
 Inductive eclass :=
@@ -64,6 +65,7 @@ Definition classify (e : ierr) : eclass :=
   | EPanic => CPanic
   | EOutOfFuel => COutOfFuel
   | EClosed => CClosed
+  | EEOF => COther
   end.
 
 Definition ierr_eqb (a b : ierr) : bool :=
@@ -75,7 +77,7 @@ Definition ierr_eqb (a b : ierr) : bool :=
   | EDeleteRelative, EDeleteRelative | ENoIndex, ENoIndex | EReadonly, EReadonly
   | ELogCorrupted, ELogCorrupted | EIndexCorrupted, EIndexCorrupted | ENotExist, ENotExist
   | ETooBig, ETooBig | ELocked, ELocked | EOther, EOther | EPanic, EPanic
-  | EOutOfFuel, EOutOfFuel | EClosed, EClosed => true
+  | EOutOfFuel, EOutOfFuel | EClosed, EClosed | EEOF, EEOF => true
   | _, _ => false
   end.
 
